@@ -3,9 +3,14 @@
       fgutils.its.split_its, fgutils.synthesis.rule_application.{ReactionRule, apply_rule}
   Model.Rule.{parse_graph, parse_gml_dpo_rule, to_rc_graph, from_gml}  ~
       rule_application.{_parse_graph, parse_gml_dpo_rule, DPORule.to_rc_graph, ReactionRule.from_gml}
-networkx' VF2 enumeration and the Weisfeiler-Lehman digest are oracles: their answers are recorded
-from the real calls and handed to the model; check "vf2" validates the enumeration against the
-proved reference enumerator on every case."""
+networkx' VF2 enumeration and the Weisfeiler-Lehman digest are oracles. VF2's answer list is recorded
+from the real call and validated against the proved reference enumerator on every case (check "vf2").
+The digests handed to the model and to the checker are computed BY THE HARNESS with networkx'
+weisfeiler_lehman_graph_hash(result, edge_attr="bond", node_attr="symbol", iterations=3) on the result
+graphs of the call unique=False / no filter / no limit (one per VF2 mapping, in VF2 order; those graphs are
+judged against the property by check "spec") - they do not depend on which graph the implementation hashes
+internally; check "wlcalls" (and a per-call runtime invariant) requires the digests computed inside
+apply_rule to be these."""
 import signal
 
 import networkx as nx
@@ -21,7 +26,7 @@ ID = "C16"
 PROPS = "Props/C16.v"
 MODEL_FILES = ["Gen/RuleMap.v", "Model/Rule.v", "Spec/RuleSpec.v", "Spec/RuleCheck.v"]
 IMPORTS = "From FGV Require Import Model.Aam Gen.RuleMap Model.Rule Spec.RuleSpec Spec.RuleCheck."
-CHECKS = ["agree", "vf2", "spec", "lex"]
+CHECKS = ["agree", "vf2", "spec", "lex", "wlcalls"]
 USES_GEN = ["rulemap"]
 CHUNK = 40
 CORRESPONDENCE = ("Model.Rule.{split_its,reaction_rule,its_of,is_connected,apply_rule} ~ fgutils.its.split_its, "
@@ -33,13 +38,18 @@ RULE = ("apply stream: random reactant molecules/forests/unions of molecules (1-
         "all id schemes) and symmetric reactants (rings, stars, K4); reaction-centre rules derived from a random connected "
         "(or two-piece) subgraph of the reactant with random bond changes (form, break, change, unchanged context as number "
         "or pair, bonds between matched atoms left unmentioned = D17 situation), tuple or list labels, arbitrary rule ids; "
+        "asymmetric single-bonded reactants (hetero-terminated chains, branched skeletons, substituted rings) with rules on a "
+        "carbon path that only change/break existing bonds (broken bond next to a changed bond), so that non-equivalent "
+        "embeddings give results differing only in which existing bond is changed; "
         "rules that match nowhere; every case is run for unique x connected_only x n in {None,0,1,2,large,-1}; "
         "gml stream: random DPO rules printed in the MOD GML format and malformed variants (missing/reordered/renamed sections, "
         "bad labels, nodes outside the context, context edges, trailing lines); non-trivial = at least one embedding and one "
         "changed bond, or a GML text that parses; distinct = distinct (reactant, rule) / distinct text")
 TRUSTED = ["networkx VF2 (GraphMatcher.subgraph_monomorphisms_iter): its answer list is an input of the model; validated "
            "on every case against the proved reference enumerator all_monos (check vf2), its order is taken as given",
-           "networkx weisfeiler_lehman_graph_hash: the digests are inputs of the model (one per candidate ITS graph)",
+           "networkx weisfeiler_lehman_graph_hash as a function: the digests (inputs of the model and of the checker) are "
+           "computed by the harness on the expected result graphs, one per embedding; the digests computed inside "
+           "apply_rule are compared with them (check wlcalls)",
            "the regular expressions of the six GML line classifiers (the model starts from their answers per line)",
            "model of the attribute dict as a record of the five keys FGUtils uses"]
 ASSUMPTIONS = ["bond attributes of the reactant graph are numbers (multiples of 0.5); node ids are Python ints",
@@ -116,6 +126,67 @@ def _rand_reactant(rng):
     a = gens.rand_mol(rng, 1, 4, syms=SYMS, orders=ORDERS)
     b = gens.rand_mol(rng, 1, 4, syms=SYMS, orders=ORDERS)
     return _union(rng, a, b), "union"
+
+
+def _asym_case(rng):
+    """Asymmetric single-bonded reactant + a rule on a carbon path that only changes / breaks EXISTING bonds
+    (a broken bond next to a changed bond, a lone broken or changed bond, ...). The embeddings are then
+    non-equivalent and their results differ only in WHICH existing bond is changed or broken: the plain
+    reactant graph is the same for all of them, only the [reactant, product] labels tell them apart."""
+    kind = rng.choice(["chain", "chain", "branched", "ringsub"])
+    het = rng.choice(["O", "N", "Cl"])
+    g = nx.Graph()
+    if kind == "chain":                       # C-C-...-C-X      (CCCO)
+        n = rng.randint(3, 6)
+        for i in range(n):
+            g.add_node(i, symbol="C")
+        for i in range(n - 1):
+            g.add_edge(i, i + 1, bond=1)
+        g.add_node(n, symbol=het)
+        g.add_edge(n - 1, n, bond=1)
+    elif kind == "branched":                  # CC(C)CN and relatives: arms of different length off one carbon
+        g.add_node(0, symbol="C")
+        nxt = 1
+        arms = rng.sample([1, 1, 2, 3], rng.choice([2, 3]))
+        for k, ln in enumerate(arms):
+            prev = 0
+            for _ in range(ln):
+                g.add_node(nxt, symbol="C")
+                g.add_edge(prev, nxt, bond=1)
+                prev = nxt
+                nxt += 1
+            if k == 0:
+                g.add_node(nxt, symbol=het)
+                g.add_edge(prev, nxt, bond=1)
+                nxt += 1
+    else:                                     # C1CC1O: carbon ring with one substituent
+        n = rng.choice([3, 4, 5])
+        for i in range(n):
+            g.add_node(i, symbol="C")
+        for i in range(n):
+            g.add_edge(i, (i + 1) % n, bond=1)
+        g.add_node(n, symbol=het)
+        g.add_edge(0, n, bond=1)
+    k = rng.choice([2, 3, 3, 3, 4])
+    style = rng.choice(["tuple", "tuple", "list"])
+    rc = nx.Graph()
+    for i in range(k):
+        rc.add_node(i, symbol="C")
+    kinds = [rng.choice(["break", "change", "keep"]) for _ in range(k - 1)]
+    if k == 3 and rng.random() < 0.5:
+        kinds = ["change", "break"]           # C<1,2>C<1,0>C
+    if all(x == "keep" for x in kinds):
+        kinds[rng.randrange(len(kinds))] = rng.choice(["break", "change"])
+    for i, kd in enumerate(kinds):
+        if kd == "break":
+            rc.add_edge(i, i + 1, bond=_mk_label(rng, 1, 0, style))
+        elif kd == "change":
+            rc.add_edge(i, i + 1, bond=_mk_label(rng, 1, rng.choice([2, 2, 1.5, 3]), style))
+        elif rng.random() < 0.5:
+            rc.add_edge(i, i + 1, bond=_mk_label(rng, 1, 1, style))
+        else:
+            rc.add_edge(i, i + 1, bond=1)
+    return g, rc, "asym:" + kind
 
 
 def _connected_piece(rng, g, size, avoid=()):
@@ -334,6 +405,11 @@ def generate(seed, tier, ncases=None):
                 text += " "
             yield {"kind": "gml", "text": text, "tag": tag, "desc": desc}
             continue
+        if rng.random() < 0.16:
+            g, rc, gk = _asym_case(rng)
+            g, scheme, _ = gens.reid(rng, g)
+            yield {"kind": "apply", "g": g, "rc": rc, "gk": gk, "scheme": scheme, "nowhere": False}
+            continue
         for _ in range(20):
             g, gk = _rand_reactant(rng)
             g, scheme, _ = gens.reid(rng, g)
@@ -381,6 +457,16 @@ def corpus():
     g = _g([(0, "C"), (1, "C"), (2, "O"), (3, "O"), (4, "N")], [(0, 1, 1), (1, 2, 2), (1, 3, 1)])
     rc = _g([(0, "C"), (1, "N"), (2, "O")], [(0, 1, (0, 1)), (0, 2, (1, 0))])
     yield {"kind": "apply", "g": g, "rc": rc, "gk": "corpus:form_break", "scheme": "corpus", "nowhere": False}
+    # results that differ only in WHICH existing bond is changed / broken must not be merged by unique=True
+    # (the WL digest is the digest of the RESULT, i.e. of the graph with its [reactant, product] labels)
+    cbr = _g([(0, "C"), (1, "C"), (2, "C")], [(0, 1, (1, 2)), (1, 2, (1, 0))])          # C<1,2>C<1,0>C
+    ccco = _g([(0, "C"), (1, "C"), (2, "C"), (3, "O")], [(0, 1, 1), (1, 2, 1), (2, 3, 1)])
+    yield {"kind": "apply", "g": ccco, "rc": cbr, "gk": "corpus:wl_CCCO", "scheme": "corpus", "nowhere": False}
+    ccccn = _g([(0, "C"), (1, "C"), (2, "C"), (3, "C"), (4, "N")], [(0, 1, 1), (1, 2, 1), (1, 3, 1), (3, 4, 1)])   # CC(C)CN
+    yield {"kind": "apply", "g": ccccn, "rc": cbr, "gk": "corpus:wl_CC(C)CN", "scheme": "corpus", "nowhere": False}
+    ringo = _g([(0, "C"), (1, "C"), (2, "C"), (3, "O")], [(0, 1, 1), (1, 2, 1), (2, 0, 1), (2, 3, 1)])             # C1CC1O
+    ropen = _g([(0, "C"), (1, "C")], [(0, 1, (1, 0))])                                                            # C<1,0>C
+    yield {"kind": "apply", "g": ringo, "rc": ropen, "gk": "corpus:wl_C1CC1O", "scheme": "corpus", "nowhere": False}
     # empty rule / empty reactant (null graph: nx.is_connected raises)
     yield {"kind": "apply", "g": nx.Graph(), "rc": nx.Graph(), "gk": "corpus:null", "scheme": "corpus", "nowhere": False}
     yield {"kind": "apply", "g": cp, "rc": nx.Graph(), "gk": "corpus:emptyrule", "scheme": "corpus", "nowhere": False}
@@ -421,6 +507,7 @@ class _Recorder:
     def __init__(self):
         self.monos = []
         self.wls = []
+        self.wl_idx = []      # (index of the mono being processed, digest) per internal WL call
 
     def __enter__(self):
         GM = nx.algorithms.isomorphism.GraphMatcher
@@ -437,6 +524,7 @@ class _Recorder:
         def wl(*a, **k):
             h = rec._orig_wl(*a, **k)
             rec.wls.append(h)
+            rec.wl_idx.append((len(rec.monos) - 1, h))
             return h
         GM.subgraph_monomorphisms_iter = it
         nx.weisfeiler_lehman_graph_hash = wl
@@ -523,13 +611,27 @@ def run_impl(c):
             return ("err", "ETypeError")
     g, rc = c["g"], c["rc"]
     inv = []
-    # reference call: VF2 is exhausted and the WL digest is computed for every candidate
+    # Reference call A (unique=False, no filter, no limit): VF2 is exhausted, one result per mono in VF2
+    # order. The digests handed to the model and to the checker are computed HERE, by networkx, on these
+    # result graphs (which check "spec" judges against the property) - NOT taken from whatever graph the
+    # implementation chose to hash internally.
+    refa_out, refa, g1, g0, rule, snap = _call(g, rc, None, False, False)
+    if refa_out[0] in ("Timeout", "Exception"):
+        inv.append("apply_rule(unique=False) failed: %s" % (refa_out[1],))
+        return {"monos": refa.monos[:MAX_MONOS], "wls": [], "wls_impl": [], "runs": [((None, False, False), refa_out)],
+                "l": rule.l, "r": rule.r, "inv": inv, "ref": refa_out[0]}
+    wls = []
+    if refa_out[0] == "ok" and isinstance(refa_out[1], list) and all(isinstance(x, ITS) for x in refa_out[1]):
+        wls = [_result_digest(x.graph) for x in refa_out[1]]
+    # Reference call B (unique=True): the digests the implementation computes internally, one per mono.
     ref_out, ref, g1, g0, rule, snap = _call(g, rc, None, True, False)
-    runs = []
     if ref_out[0] in ("Timeout", "Exception"):
         inv.append("apply_rule(unique=True) failed: %s" % (ref_out[1],))
-        return {"monos": ref.monos[:MAX_MONOS], "wls": ref.wls[:MAX_MONOS], "runs": [((None, True, False), ref_out)],
-                "l": rule.l, "r": rule.r, "inv": inv, "ref": ref_out[0]}
+        return {"monos": refa.monos[:MAX_MONOS], "wls": wls[:MAX_MONOS], "wls_impl": ref.wls[:MAX_MONOS],
+                "runs": [((None, True, False), ref_out)], "l": rule.l, "r": rule.r, "inv": inv, "ref": ref_out[0]}
+    if ref.monos != refa.monos:
+        inv.append("VF2 yielded a different sequence in two calls on the same input")
+    runs = []
     for unique in (True, False):
         for conn in (False, True):
             for n in N_VALUES:
@@ -546,11 +648,23 @@ def run_impl(c):
                     else:
                         out = ("ok", [x.graph for x in out[1]])
                 # the oracles are deterministic: what this call saw is a prefix of the reference answers
-                if rec.monos != ref.monos[:len(rec.monos)]:
+                if rec.monos != refa.monos[:len(rec.monos)]:
                     inv.append("VF2 yielded a different sequence in two calls on the same input")
+                # every digest computed inside the call is the digest of the expected result for that mono
+                for i, h in rec.wl_idx:
+                    if 0 <= i < len(wls) and h != wls[i]:
+                        inv.append("apply_rule(n=%r, unique=%r, connected_only=%r) hashed a graph whose WL digest differs "
+                                   "from the digest of the result for the same embedding" % (n, unique, conn))
+                        break
                 runs.append(((n, unique, conn), out))
-    return {"monos": ref.monos, "wls": ref.wls, "runs": runs, "l": rule.l, "r": rule.r, "inv": inv,
+    return {"monos": refa.monos, "wls": wls, "wls_impl": ref.wls, "runs": runs, "l": rule.l, "r": rule.r, "inv": inv,
             "ref": ref_out[0]}
+
+
+def _result_digest(graph):
+    """The 3-round WL digest of a result graph, computed independently of apply_rule's internals
+    (same call as the library makes: edge_attr=bond, node_attr=symbol, iterations=3)."""
+    return nx.weisfeiler_lehman_graph_hash(graph, edge_attr="bond", node_attr="symbol", iterations=3)
 
 
 # ----------------------------------------------------------------------------------------------
@@ -610,18 +724,23 @@ def coq_case(c, out):
             defs["desc"] = _desc(c["desc"])
             spec, lex = "gml_okb $desc $out", "lex_okb $desc $lines"
         return {"defs": defs,
-                "checks": {"agree": "gml_eqb (%s) $out" % model, "vf2": "true", "spec": spec, "lex": lex},
+                "checks": {"agree": "gml_eqb (%s) $out" % model, "vf2": "true", "spec": spec, "lex": lex,
+                           "wlcalls": "true"},
                 "diag": [model]}
     defs = {"g": ct.graph(c["g"]), "rc": ct.graph(c["rc"]),
             "monos": "(%s : list mapping)" % ct.lst([_mapping(m) for m in out["monos"]]),
             "wls": "(%s : list string)" % ct.lst([ct.s(x) for x in out["wls"]]),
+            "wlsimpl": "(%s : list string)" % ct.lst([ct.s(x) for x in out["wls_impl"]]),
             "lpy": ct.graph(out["l"]), "rpy": ct.graph(out["r"]),
             "outs": "(%s : list (opts * ar_result))" % ct.lst(["(%s, %s)" % (_opts(o), _ar(r)) for o, r in out["runs"]])}
     return {"defs": defs,
             "checks": {"agree": "agree_allb $g $rc $monos $wls $lpy $rpy $outs",
                        "vf2": "vf2_okb (rl (reaction_rule $rc)) $g $monos $wls",
                        "spec": "apply_all_okb $g $rc $monos $wls $outs",
-                       "lex": "true"},
+                       "lex": "true",
+                       # the digests computed inside apply_rule (unique=True, one per mono) are the digests
+                       # networkx gives for the expected result graphs
+                       "wlcalls": "list_eqb String.eqb $wlsimpl $wls"},
             "diag": ["all_monos (rl (reaction_rule $rc)) $g", "$monos",
                      "apply_rule $g (reaction_rule $rc) $monos $wls None false false"]}
 
@@ -657,7 +776,8 @@ def describe_out(out):
     for o, r in out["runs"]:
         runs.append({"n": o[0], "unique": o[1], "connected_only": o[2], "status": r[0],
                      "results": [ct.graph_py(x) for x in r[1]] if r[0] == "ok" else r[1]})
-    return {"monos": out["monos"], "wls": out["wls"], "runs": runs[:6], "n_runs": len(runs)}
+    return {"monos": out["monos"], "wls_of_expected_results": out["wls"], "wls_computed_inside_apply_rule": out["wls_impl"],
+            "runs": runs[:6], "n_runs": len(runs)}
 
 
 def key(c):
@@ -709,6 +829,11 @@ def classes(c, out):
             if u in mm and v in mm and not rc.has_edge(mm[u], mm[v]):
                 d17 = True
     yield "unmentioned_bond_between_matched_atoms=" + ("yes" if d17 else "no")
+    # results that differ only in which EXISTING bond is changed / broken: the rule forms no bond, yet the
+    # result graphs fall into several WL classes
+    forms = any(isinstance(d["bond"], (tuple, list)) and d["bond"][0] == 0 for _, _, d in rc.edges(data=True))
+    if k >= 2:
+        yield "results_differ_only_in_existing_bonds=" + ("yes" if (not forms and len(set(out["wls"])) >= 2) else "no")
     if c["nowhere"]:
         yield "rule_built_to_match_nowhere"
 
